@@ -243,6 +243,8 @@ func runC06(c *core.Ctx) {
 	nRun, nEval, nProduce := 0, 0, 0
 	nCarrierRecv := 0
 	c.Rule("ERR7", "a parsed JSON row is validated to be an object before its fields are read")
+	c.Rule("CELL", "a csv cell that does not fit its column type is an error, not a silently converted value (shared with C24)")
+	checkCSVCells(c, "CELL")
 	for _, fn := range p.AllFuncs() {
 		rel := core.Rel(fn.Pkg)
 		if !onQueryPath(rel) {
